@@ -129,6 +129,16 @@ class ShapeDomain(Domain):
         da, db = self._dims(a), self._dims(b)
         if (isinstance(a, (Sh, NsV)) or isinstance(b, (Sh, NsV))) and da is not None and db is not None:
             if isinstance(op, ast.MatMult):
+                # matrix product: the last axis of a is contracted with the first (1-D) / second-to-last axis of b
+                if da and db:
+                    ka = da[-1]
+                    kb = db[0] if len(db) == 1 else db[-2]
+                    self.interp.emit('tensordot', pairs=[(ka, kb)], a=da, b=db, node=node)
+                    if ka != kb:
+                        self.interp.emit('contract-mismatch', a=da, b=db, node=node)
+                    rest_b = () if len(db) == 1 else tuple(db[:-2]) + (db[-1],)
+                    r_ = tuple(da[:-1]) + rest_b
+                    return Sh(r_) if r_ else Scalar()
                 return Unknown('matmul')
             r = broadcast(da, db)
             if r is None:
@@ -206,6 +216,12 @@ class ShapeDomain(Domain):
         if isinstance(v, Sh):
             if name in ('astype', 'copy', 'conj'):
                 return v
+            if name in ('ravel', 'flatten'):
+                order = kwargs.get('order', args[0] if args else None)
+                if order is not None and not (isinstance(order, Const) and order.v in ('C', None)):
+                    self.interp.emit('layout-order', what='%s(order=%r)' % (name, getattr(order, 'v', order)), node=node)
+                sym = [d for d in v.dims if d != 1]
+                return Sh(('*'.join(str(x) for x in sym) if len(sym) != 1 else sym[0],)) if sym else Sh((1,))
             if name == 'reshape':
                 shp = args[0] if len(args) == 1 else Tup(args)
                 if isinstance(shp, Tup) and all(isinstance(d, (Const, Dim)) for d in shp.items):
@@ -297,6 +313,37 @@ class ShapeDomain(Domain):
                     self.interp.emit('broadcast-error', a=da, b=db_, node=node)
                     return Unknown('broadcast error')
                 return Sh(r) if (isinstance(args[0], Sh) or isinstance(args[1], Sh)) else Scalar()
+        if last == 'tensordot' and len(args) >= 2 and isinstance(args[0], Sh) and isinstance(args[1], Sh):
+            da, db_ = list(args[0].dims), list(args[1].dims)
+            axes = kwargs.get('axes', args[2] if len(args) > 2 else Const(2))
+            ia = ib = None
+            if isinstance(axes, Const) and isinstance(axes.v, int):
+                ia, ib = list(range(len(da) - axes.v, len(da))), list(range(axes.v))
+            elif isinstance(axes, Tup) and len(axes.items) == 2:
+                def _ax(x):
+                    if isinstance(x, Const) and isinstance(x.v, int):
+                        return [x.v]
+                    if isinstance(x, Const) and isinstance(x.v, (tuple, list)):
+                        return list(x.v)
+                    if isinstance(x, Tup) and all(isinstance(y, Const) and isinstance(y.v, int) for y in x.items):
+                        return [y.v for y in x.items]
+                    return None
+                ia, ib = _ax(axes.items[0]), _ax(axes.items[1])
+            elif isinstance(axes, Const) and isinstance(axes.v, (tuple, list)) and len(axes.v) == 2:
+                norm_ = lambda x: [x] if isinstance(x, int) else list(x)
+                ia, ib = norm_(axes.v[0]), norm_(axes.v[1])
+            if ia is None or ib is None or len(ia) != len(ib) or any(not (-len(da) <= i < len(da)) for i in ia) or any(not (-len(db_) <= i < len(db_)) for i in ib):
+                return Unknown('tensordot axes')
+            ia = [i % len(da) for i in ia]
+            ib = [i % len(db_) for i in ib]
+            pairs = [(da[i], db_[j]) for i, j in zip(ia, ib)]
+            self.interp.emit('tensordot', pairs=pairs, a=tuple(da), b=tuple(db_), node=node)
+            if any(x != y for x, y in pairs):
+                self.interp.emit('contract-mismatch', a=tuple(da), b=tuple(db_), node=node)
+            r_ = tuple(d for i, d in enumerate(da) if i not in ia) + tuple(d for j, d in enumerate(db_) if j not in ib)
+            return Sh(r_) if r_ else Scalar()
+        if last in ('ravel',) and isinstance(a0, Sh):
+            return self.method(a0, 'ravel', list(args[1:]), kwargs, node)
         if dotted == 'builtins.hasattr' and isinstance(a0, Sh) and len(args) == 2 and isinstance(args[1], Const):
             return Const(args[1].v in ('ndim', 'shape', 'dtype', 'size', 'astype', 'reshape', '__len__', '__iter__'))
         if last == 'squeeze' and isinstance(a0, Sh):
